@@ -39,27 +39,39 @@ pub fn cmd_meta(o: &Opts) -> Result<(), String> {
             Ok(re) => {
                 m.insert("st".into(), json!("ok"));
                 m.insert("ek".into(), json!(""));
-                m.insert("clen".into(), json!(re.captures_len()));
-                let names: Vec<Option<String>> = re.capture_names().map(|n| n.map(|s| s.to_string())).collect();
+                // a panic of the code under test is data: clen -3 / a PANIC marker are never expected values
+                let clen = catch_unwind(AssertUnwindSafe(|| re.captures_len() as i64)).unwrap_or(-3);
+                m.insert("clen".into(), json!(clen));
+                let names: Vec<Option<String>> = match catch_unwind(AssertUnwindSafe(|| re.capture_names().map(|n| n.map(|s| s.to_string())).collect::<Vec<_>>())) {
+                    Ok(v) => v,
+                    Err(_) => vec![Some("PANIC".to_string())],
+                };
                 m.insert("names".into(), json!(names.iter().map(|n| n.as_ref().map(|s| string2toks(s)).unwrap_or_default()).collect::<Vec<_>>()));
                 let mut ms = Vec::new();
                 for (k, t) in texts.iter().enumerate() {
                     let r = catch_unwind(AssertUnwindSafe(|| re.captures(t)));
                     match r {
                         Ok(Ok(Some(c))) => {
-                            let len = c.len();
-                            let it: Vec<i64> = c.iter().flat_map(|m| sp(m)).collect();
-                            let gets: Vec<i64> = (0..len + 2).flat_map(|i| sp(c.get(i))).collect();
-                            let mut nm: Vec<Vec<i64>> = Vec::new();
-                            for (idx, n) in names.iter().enumerate() {
-                                if let Some(n) = n {
-                                    let mut row = vec![idx as i64];
-                                    row.extend(sp(c.name(n)));
-                                    nm.push(row);
+                            let inspected = catch_unwind(AssertUnwindSafe(|| {
+                                let len = c.len();
+                                let it: Vec<i64> = c.iter().flat_map(|m| sp(m)).collect();
+                                let gets: Vec<i64> = (0..len + 2).flat_map(|i| sp(c.get(i))).collect();
+                                let mut nm: Vec<Vec<i64>> = Vec::new();
+                                for (idx, n) in names.iter().enumerate() {
+                                    if let Some(n) = n {
+                                        let mut row = vec![idx as i64];
+                                        row.extend(sp(c.name(n)));
+                                        nm.push(row);
+                                    }
                                 }
+                                let unknown = sp(c.name("nosuchname"));
+                                json!({"k": k + 1, "len": len, "it": it, "gets": gets, "nm": nm, "unknown": unknown})
+                            }));
+                            match inspected {
+                                Ok(v) => ms.push(v),
+                                // an accessor panicked on a successful search: len 0 can never satisfy the equations
+                                Err(_) => ms.push(json!({"k": k + 1, "len": 0, "it": [], "gets": [], "nm": [], "unknown": [-1, -1]})),
                             }
-                            let unknown = sp(c.name("nosuchname"));
-                            ms.push(json!({"k": k + 1, "len": len, "it": it, "gets": gets, "nm": nm, "unknown": unknown}));
                         }
                         Ok(Ok(None)) => {}
                         Ok(Err(_)) => ms.push(json!({"k": k + 1, "len": -1, "it": [], "gets": [], "nm": [], "unknown": [-1, -1]})),
